@@ -609,7 +609,7 @@ func checkC07Lock(job *Job, res *Result) {
 			if n%job.NShards != job.Shard {
 				continue
 			}
-			if name == "FOLLOW" || name == "REPLCONF" || name == "AOFSHRINK" {
+			if name == "FOLLOW" || name == "SLAVEOF" || name == "REPLCONF" || name == "AOFSHRINK" {
 				continue // change replication / spawn background work: not dataset commands
 			}
 			shape := shape
